@@ -14,7 +14,7 @@ REGISTRY = {
     'C12': ['core', 'handles'],
     'C13': ['coro', 'base_core', 'event'],
     'C14': ['coro_mutex'],
-    'C15': ['shared_mutex'],
+    'C15': ['shared_mutex', 'coro_mutex'],
     'C16': ['event', 'base_core'],
     'C17': ['fault_sched'],
     'C18': ['fiber_locks'],
@@ -190,6 +190,20 @@ CLAIMS = {
                 'property\'s own assumption: only the safety shadow "a parked waiter makes the release fail, every unlock grants or releases" is proved; FIFO order through '
                 'the reversal additionally bounded on real memory (N<=6/10); guard classes (UniqueGuard / StickyGuard bookkeeping) are not under contract.',
         'design': 'DESIGN.md 6 C14, 5.B, A.4',
+    },
+    'C15': {
+        'text': 'Counting-permission rely/guarantee proof of SharedMutexImpl<FIFO, *> at atomic-operation granularity over the packed 32+32 state word, readers_wait and the spinlock-protected fields, with logical (ghost) '
+                'counters for holders, registered / paying / queued readers, first and queued writers, pass credits and FIFO priority. One invariant (10 named clauses) contains the exclusion clauses (at most one writer; '
+                'no reader holds, pays or has a credit while a writer holds) and the "nobody is forgotten" shadows (parked readers / writers are behind a holder, a first writer or an unlock in progress; the first writer\'s '
+                'debt equals exactly the readers still to release; credits == registered readers when no writer is registered). Every function - TryLockSharedAwait, TryLockAwait, TryLock, TryLockShared (loop contract), '
+                'AwaitLockShared, AwaitLock, UnlockHereShared, UnlockHere, SlowUnlock, PassReaders, RunWriter, RunReaders (loop contract), Run - is proved, under arbitrary interference at each of its atomic operations and '
+                'lock acquisitions, to re-establish the invariant after every own step, to decrement a counter only by a token it owns, and to meet its postcondition (Try* succeed only when compatible; each unlock '
+                'releases, or grants exactly the next writer / all queued readers / pass credits as the property prescribes, each granted coroutine submitted exactly once); the writers queue is a ghost pool of symbolic '
+                'length; lemma: the member initialisers establish the invariant. LockAwaiter<Base, Shared> ready / suspend (unit coro_mutex).',
+        'note': 'SC atomics (C04 orders are not claimed for this class); fewer than 2^30 simultaneous readers / writers; the readers container is an abstract count (ReadersFIFO only selects the resume order); the token '
+                'meta-argument (other threads\' tokens are stable because every decrement is asserted to consume an own token) is a paper step; liveness itself is the property\'s premise - only the safety shadow is proved; '
+                'guard classes are not under contract. Replay: the real SharedMutex in a CORO build of the tree under check (replay/shared_mutex.cpp: overlap counters, Try* checks, lost-wake-up watchdog, 4 option pairs).',
+        'design': 'DESIGN.md 6 C15',
     },
     'C16': {
         'text': 'R/G contracts on the OneShotEvent head (TryAdd push loop; SetImpl exchange + walk over a ghost pool: every registered job '
